@@ -21,7 +21,7 @@ from vf.pysym.loader import SymWorld
 
 PROPERTY = "C20"
 
-POS = [100, 200, 300, 400, 500]
+POS = [0, 200, 300, 400, 500]  # the first variant sits on the first base of the contig (VCF POS 1): its 0-based position / component id is 0
 
 
 class MemFS:
@@ -113,7 +113,7 @@ class AuxReports(SubCheck):
     sources = ["whatshap/cli/phase.py", "whatshap/pedigree.py", "whatshap/vcf.py", "whatshap/graph.py", "whatshap/merge.py"]
     stubs = ["VcfReader (yields VariantTables built by the harness)", "PhasedInputReader.read (returns harness-chosen read sets)", "readselection (identity)", "PedigreeDPTable (contract stub: arbitrary super reads, partition, transmission vector)", "PhasedVcfWriter (records calls, returns a harness-chosen list of GenotypeChange when genotypes are distrusted, none otherwise - C04/C01 justify that)", "open (in-memory file system in the symbolic run, scratch directory in the replay)", "whatshap.core data classes: vf/models/core_model.py in the symbolic run, the compiled module in the replay"]
     assumptions = ["the VCF writer reports exactly the genotype differences it made (C04) and none without --distrust-genotypes (C01/C05: trusted mode only permutes alleles)"]
-    required_cover = ["two chromosomes", "two families", "recombination event produced", "genotype change produced", "read list requested", "phase set nested inside another one"]
+    required_cover = ["two chromosomes", "two families", "recombination event produced", "genotype change produced", "read list requested", "phase set nested inside another one", "read attributed to the phase set its first variant has in the VCF", "phase set starting on the first base of the contig"]
     hash_mode = "concretise"
 
     def shapes(self, tier):
@@ -229,6 +229,9 @@ class AuxReports(SubCheck):
                     return None
 
                 def write(self2, chromosome, superreads, components):
+                    # what the real writer turns into PS/HP values: component (0-based leftmost position) + 1 per phased variant
+                    sc.written_components = getattr(sc, "written_components", {})
+                    sc.written_components.setdefault(chromosome, {}).update({s: dict(c) for s, c in components.items()})
                     changes = []
                     if sc.distrust:
                         vt = [t for t in tables if t.chromosome == chromosome][0]
@@ -404,6 +407,15 @@ class AuxReports(SubCheck):
             e.check(l[0] in handed_all, "read list names a read that was not handed to the solver", info)
             # phase set = component of its first variant + 1 ; here every handed read starts at a listed position
             e.check(int(l[6]) - 1 in POS and int(l[3]) - 1 <= int(l[6]) - 1, "read list phase set is not the component (leftmost position) of the read's first variant", info)
+            # ... and it is the phase set the output VCF gives that variant for the read's sample (the components handed to the writer)
+            chrom = l[0].split("_")[0]
+            comp = getattr(sc, "written_components", {}).get(chrom, {}).get(l[2], {})
+            first = int(l[6]) - 1
+            if first in comp:
+                e.cover("read attributed to the phase set its first variant has in the VCF")
+                if comp[first] == 0:
+                    e.cover("phase set starting on the first base of the contig")
+                e.check(int(l[3]) == comp[first] + 1, "read list attributes a read to another phase set than the one its first variant has in the output VCF", lambda: dict(info(), line=l, vcf_phase_set=comp[first] + 1))
         # ---- changed genotypes: entries of every chromosome present; none without distrust
         glines = [l.split("\t") for l in (gt_txt or "").splitlines() if l and not l.startswith("#")]
         nchg = 0
